@@ -8,5 +8,5 @@ echo "== baseline tests with change (demo moved aside)"; mv $DEMO /tmp/zz_demo_$
 go test -vet=off -count=1 -timeout 20m . ./internal/... 2>&1 | tail -5
 mv /tmp/zz_demo_$$.go $DEMO
 echo "== demo WITH change (must FAIL)"; (cd $DDIR && go test -vet=off -count=1 -run TestMutantDemo . 2>&1 | tail -4)
-echo "== demo WITHOUT change (must PASS)"; git stash -q -- $(git diff --name-only) ; (cd $DDIR && go test -vet=off -count=1 -run TestMutantDemo . 2>&1 | tail -3); git stash pop -q
+echo "== demo WITHOUT change (must PASS)"; git apply -R patch.diff; (cd $DDIR && go test -vet=off -count=1 -run TestMutantDemo . 2>&1 | tail -3); git apply patch.diff
 git diff --stat | tail -3
